@@ -94,4 +94,9 @@ TEXT = {
         "level": "Generated histories with 3 validators, classic and concentrated superfluid assets, delegations, top-ups, undelegations, unbondings (full/partial), price moves, refresh epochs and jumps past the unbonding period; after every step each intermediary account's stake is compared with the independently recomputed risk-adjusted value of exactly the locks delegated through it (exact after a refresh), the staking/unstaking markers and their end times are checked, the reported OSMO supply must not move, BeginUnlocking on delegated locks must fail, no lock may return before its undelegation matured.",
         "note": "Trusted: the model of delegated locks built from message responses; minting is switched off (provision 0) so that supply neutrality is an equality. Between refreshes the allowance is 3 units per value conversion (each conversion rounds twice) plus one per lock. Slashing is not driven. Observed, outside the statement: after a refresh the last of several locks of one intermediary account can fail to undelegate by one unit (invalid shares amount).",
     },
+    "C19": {
+        "technique": "runtime monitor: offline checker over per-block traces (app hash, per-transaction code/codespace/gas/data/events, block events) recorded by separate OS processes replaying one transaction history under different GOMAXPROCS / GOGC / map seeds, and by processes started from states exported after chosen blocks; canonicalised per-module export + query battery diff at the final height; Go race detector pass with concurrent CheckTx / Simulate / gRPC queries and a relevance rule (a non-consensus goroutine writing memory that block execution touches, in repository code)",
+        "level": "Generated histories of signed transactions through FinalizeBlock/Commit covering gamm, poolmanager (taker fees set by an admin), concentrated liquidity, lockup, incentives, token factory, bank, mint reductions and day/week epochs. Replica lineage: every block's app hash and results must be identical. Import lineage: every transaction result after the import point and the exported module states / queries at the final height must be identical to the exporting node's. Race tier: the same history with concurrent mempool/query-connection load under -race.",
+        "note": "Trusted: the harness genesis (2 validators, 8 funded accounts) as a representative chain; FinalizeBlock/Commit driven directly instead of through CometBFT; one proposer. App hashes are not compared across the import boundary (a new chain has new IAVL versions); raw stores are not compared across it either, only what the node reports (exports, queries, results). IBC, wasm contracts, governance and superfluid messages are not in the C19 workload. Crash points are not enumerated (memdb, no restart). Race reports whose accessing code is third-party only (SDK baseapp/params/IAVL) are counted and listed, not judged.",
+    },
 }
